@@ -38,6 +38,8 @@ class WitnessModel(Model):
         self.val.setdefault('m_n', F(1))
         self.val.setdefault('h', F(1))
         self.undecided: list = []
+        self.symbolic_slices = True
+        self.fns = {'nextafter_up': lambda x: x + F(1, 10 ** 15)}
 
     # ---- witness values ---------------------------------------------------------------
     def value(self, v):
@@ -50,7 +52,7 @@ class WitnessModel(Model):
                 return F(c) if not isinstance(c, float) else F(repr(c))
             if isinstance(v.term, Rat):
                 try:
-                    return T.evaluate(v.term, self.val)
+                    return T.evaluate(v.term, self.val, self.fns)
                 except T.EvalError:
                     return None
         return None
@@ -116,7 +118,17 @@ class WitnessModel(Model):
             if attr == 'value':
                 raise RaiseSignal('DimensionError', node, interp.where(node), ('value of a non-scalar',))
             if attr == 'variances':
+                if all('var' in x.members for x in self._flat(v)) and self._flat(v):
+                    r = self._map(interp, v, lambda x: self.raw(interp, x.members['var'], node, 'value'))
+                    r.kind = 'raw'
+                    return r
                 return None
+            if attr == 'data':
+                r = self.array(interp, it, dims[0], like=v) if it is not None else self.matrix(interp, rw, dims[0])
+                r.view_of = v
+                return r
+            if attr == 'masks':
+                return v.members.get('masks', {})
             return BoundModel(v, attr)
         if 'concrete' in v.members and attr == 'value':
             return v.members['concrete']
@@ -139,6 +151,22 @@ class WitnessModel(Model):
             axis, k = 0, key
         if isinstance(k, SVar) and 'concrete' in k.members:
             k = k.members['concrete']
+        if isinstance(k, slice) and any(isinstance(x, SVar) for x in (k.start, k.stop)):
+            if rw is not None or k.step is not None:
+                raise AnalysisError(f'label-based slice of a 2-d array at {interp.where(node)}')
+            coord = (v.members.get('coords') or {}).get(dims[0])
+            cit = items_of(coord) if isinstance(coord, SVar) else (it if v.kind != 'dataarray' else None)
+            if cit is None:
+                raise RaiseSignal('DimensionError', node, interp.where(node), (f'label-based slice needs a coordinate for {dims[0]}',))
+            lo = self.value(k.start) if k.start is not None else None
+            hi = self.value(k.stop) if k.stop is not None else None
+            cv = [self.value(c) for c in cit]
+            if any(x is None for x in cv) or (k.start is not None and lo is None) or (k.stop is not None and hi is None):
+                raise AnalysisError(f'label-based slice without witness values at {interp.where(node)}')
+            # scipp: for a sorted coordinate the half-open range lo <= x < hi
+            begin = next((i for i, x in enumerate(cv) if lo is None or x >= lo), len(cv))
+            end = next((i for i, x in enumerate(cv) if hi is not None and x >= hi), len(cv))
+            k = slice(begin, max(begin, end))
         if rw is not None:
             if axis == 0:
                 if isinstance(k, slice):
@@ -147,7 +175,13 @@ class WitnessModel(Model):
             return self.matrix(interp, [self.var_index(interp, r, k, node) for r in rw], dims[0]) if isinstance(k, slice) else \
                 self.array(interp, [self._pick(interp, items_of(r), k, node) for r in rw], dims[0], like=v)
         if isinstance(k, slice):
-            return self.array(interp, it[k], dims[0], like=v)
+            r = self.array(interp, it[k], dims[0], like=v)
+            r.view_of = v
+            if v.kind == 'dataarray':
+                r.kind = 'dataarray'
+                r.members['coords'] = {n: (self.array(interp, items_of(c)[k], dims[0], like=c) if isinstance(c, SVar) and items_of(c) is not None and len(items_of(c)) == len(it) else c)
+                                       for n, c in (v.members.get('coords') or {}).items()}
+            return r
         if isinstance(k, list) and all(isinstance(b, bool) for b in k):
             return self.array(interp, [x for x, b in zip(it, k, strict=True) if b], dims[0], like=v)
         return self._pick(interp, it, k, node)
@@ -210,13 +244,34 @@ class WitnessModel(Model):
             r = self._zip(interp, a, b, lambda x, y: super(WitnessModel, self).binop(interp, op, x, y, node), node)
             if inplace and isinstance(a, SVar):
                 interp.mutate(a, node, f'in-place {op}')
-                a.members.update(r.members)
-                a.unit, a.dtype = r.unit, r.dtype
+                if not self._is_arr(a):
+                    raise RaiseSignal('DimensionError', node, interp.where(node), ('in-place operation would change the shape',))
+                src, dst = self._flat(r), self._flat(a)
+                if len(src) != len(dst):
+                    raise RaiseSignal('DimensionError', node, interp.where(node), ('in-place operation would change the shape',))
+                for d_, s_ in zip(dst, src, strict=True):
+                    self._assign_item(d_, s_)  # views share the item objects: the write is seen through all of them
+                a.unit = r.unit
                 return a
             return r
         if op in ('and', 'or') and isinstance(a, SVar) and isinstance(b, SVar) and 'concrete' in a.members and 'concrete' in b.members:
             return self.const_bool(interp, (a.members['concrete'] and b.members['concrete']) if op == 'and' else (a.members['concrete'] or b.members['concrete']))
         return super().binop(interp, op, a, b, node, inplace)
+
+    @staticmethod
+    def _assign_item(dst: SVar, src: SVar):
+        dst.term, dst.unit, dst.why = src.term, src.unit, src.why
+        for k in ('concrete', 'var', 'xt'):
+            if k in src.members:
+                dst.members[k] = src.members[k]
+            else:
+                dst.members.pop(k, None)
+
+    def clone_item(self, interp, x: SVar) -> SVar:
+        r = self.new(interp, x.term, x.unit, x.dtype, x.taint, x.why)
+        r.kind = x.kind
+        r.members.update({k: v for k, v in x.members.items() if k in ('concrete', 'var', 'dims', 'xt')})
+        return r
 
     def _truth(self, x):
         if isinstance(x, SVar):
@@ -255,7 +310,20 @@ class WitnessModel(Model):
     # ---- methods ---------------------------------------------------------------------------------------
     def call_method(self, interp, recv, name, args, kwargs, node):
         if isinstance(recv, SVar) and self._is_arr(recv):
-            if name in ('to', 'astype', 'copy'):
+            if name == 'copy':
+                deep = kwargs.get('deep', args[0] if args else True)
+                r = self._map(interp, recv, lambda x: self.clone_item(interp, x)) if deep else \
+                    (self.array(interp, items_of(recv), recv.members['dims'][0], like=recv) if items_of(recv) is not None else self.matrix(interp, rows_of(recv), recv.members['dims'][0]))
+                r.kind = recv.kind
+                if recv.kind == 'dataarray':
+                    r.members['coords'] = dict(recv.members.get('coords') or {})
+                    if deep:
+                        r.members['coords'] = {n: (self._map(interp, c, lambda x: self.clone_item(interp, x)) if isinstance(c, SVar) and self._is_arr(c) else c)
+                                               for n, c in r.members['coords'].items()}
+                if not deep:
+                    r.view_of = recv
+                return r
+            if name in ('to', 'astype'):
                 return self._map(interp, recv, lambda x: super(WitnessModel, self).call_method(interp, x, name, args, kwargs, node))
             if name in ('flatten',):
                 to = kwargs.get('to')
@@ -302,6 +370,105 @@ class WitnessModel(Model):
         if isinstance(recv, SVar) and name in ('flatten', 'broadcast') and not self._is_arr(recv) and ('to' in kwargs):
             return self.array(interp, [recv], kwargs['to'], like=recv)
         return super().call_method(interp, recv, name, args, kwargs, node)
+
+    def var_setattr(self, interp, obj, attr, val, node):
+        if attr == 'data' and isinstance(val, SVar) and self._is_arr(val):
+            for k in ('items', 'rows'):
+                obj.members.pop(k, None)
+            obj.members.update({k: v for k, v in val.members.items() if k in ('items', 'rows')})
+            obj.members['dims'] = list(val.members['dims'])
+        elif attr == 'data':
+            raise AnalysisError(f'.data assigned from {val!r} at {interp.where(node)}')
+
+    def var_store(self, interp, obj, key, val, node):
+        if not self._is_arr(obj):
+            return
+        target = self.var_index(interp, obj, key, node)
+        dst = self._flat(target) if isinstance(target, SVar) and self._is_arr(target) else [target]
+        if isinstance(val, SVar) and self._is_arr(val):
+            src = self._flat(val)
+            if len(src) != len(dst):
+                raise RaiseSignal('DimensionError', node, interp.where(node), (f'cannot store {len(src)} values into {len(dst)} elements',))
+        else:
+            src = [self.lift(interp, val)] * len(dst)
+        for d_, s_ in zip(dst, src, strict=True):
+            if s_.kind == 'raw' and isinstance(s_.term, Rat) and d_.unit is not None:
+                # bare numbers written into a variable are taken in its unit
+                conv = self.new(interp, s_.term * d_.unit.scale(), d_.unit, d_.dtype)
+                self._assign_item(d_, conv)
+            else:
+                if s_.unit is not None and d_.unit is not None and s_.unit != d_.unit and d_.term is not None:
+                    raise RaiseSignal('UnitError', node, interp.where(node), (f'store of {s_.unit!r} into {d_.unit!r}',))
+                self._assign_item(d_, s_)
+
+    def sc_where(self, interp, args, kwargs, node):
+        a = _bind(['condition', 'x', 'y'], args, kwargs, {})
+        c, x, y = a['condition'], a['x'], a['y']
+        if isinstance(c, SVar) and (self._is_arr(c) or 'concrete' in c.members):
+            if self._is_arr(c):
+                if rows_of(c) is not None:
+                    rows = []
+                    for i, rc in enumerate(rows_of(c)):
+                        xi = rows_of(x)[i] if isinstance(x, SVar) and rows_of(x) is not None else x
+                        yi = rows_of(y)[i] if isinstance(y, SVar) and rows_of(y) is not None else y
+                        rows.append(self.sc_where(interp, [rc, xi, yi], {}, node))
+                    return self.matrix(interp, rows, c.members['dims'][0])
+                out = []
+                for i, ci in enumerate(items_of(c)):
+                    xi = items_of(x)[i] if isinstance(x, SVar) and items_of(x) is not None else x
+                    yi = items_of(y)[i] if isinstance(y, SVar) and items_of(y) is not None else y
+                    out.append(self.sc_where(interp, [ci, xi, yi], {}, node))
+                return self.array(interp, out, c.members['dims'][0])
+            chosen = x if self._truth(c) else y
+            other = y if self._truth(c) else x
+            cu, ou = getattr(chosen, 'unit', None), getattr(other, 'unit', None)
+            if cu is not None and ou is not None and cu != ou:
+                interp.event('unit-mismatch', node, op='where', left=repr(cu), right=repr(ou))
+            chosen = self.lift(interp, chosen)
+            return self.clone_item(interp, chosen) if not self._is_arr(chosen) else chosen
+        return super().sc_where(interp, args, kwargs, node)
+
+    def sc_values(self, interp, args, kwargs, node):
+        x = args[0]
+        r = super().sc_values(interp, args, kwargs, node)
+        if isinstance(x, SVar) and isinstance(r, SVar):
+            r.members['dims'] = x.members.get('dims', [])
+        return r
+
+    def sc_variances(self, interp, args, kwargs, node):
+        x = args[0]
+        if isinstance(x, SVar) and isinstance(x.members.get('var'), SVar):
+            return x.members['var']
+        return super().sc_variances(interp, args, kwargs, node)
+
+    def sc_issorted(self, interp, args, kwargs, node):
+        x = args[0]
+        if isinstance(x, SVar) and items_of(x) is not None:
+            vals = [self.value(i) for i in items_of(x)]
+            if all(v is not None for v in vals):
+                order = kwargs.get('order', args[2] if len(args) > 2 else 'ascending')
+                ok = all(a <= b for a, b in zip(vals, vals[1:], strict=False)) if order == 'ascending' else all(a >= b for a, b in zip(vals, vals[1:], strict=False))
+                return ok
+        return super().sc_issorted(interp, args, kwargs, node)
+
+    def sc_empty(self, interp, args, kwargs, node):
+        sizes = kwargs.get('sizes')
+        if sizes is None and 'dims' in kwargs and 'shape' in kwargs:
+            sizes = dict(zip(kwargs['dims'], kwargs['shape'], strict=True))
+        if isinstance(sizes, dict) and all(isinstance(n, int) for n in sizes.values()) and 1 <= len(sizes) <= 2:
+            unit = self._unit_arg(interp, kwargs.get('unit'), node) if 'unit' in kwargs else DIMENSIONLESS
+            dims = list(sizes)
+
+            def cell():
+                c = self.new(interp, None, unit, kwargs.get('dtype') or 'float64', why='uninitialised element')
+                c.members['dims'] = []
+                return c
+            if len(dims) == 1:
+                return self.array(interp, [cell() for _ in range(sizes[dims[0]])], dims[0])
+            return self.matrix(interp, [self.array(interp, [cell() for _ in range(sizes[dims[1]])], dims[1]) for _ in range(sizes[dims[0]])], dims[0])
+        return super().sc_empty(interp, args, kwargs, node)
+
+    sc_zeros = sc_empty
 
     def _flat(self, v):
         if rows_of(v) is not None:
@@ -427,7 +594,10 @@ class WitnessModel(Model):
             r = self.new(interp, None, data.unit, data.dtype, why='data array of symbolic scalars')
             r.kind = 'dataarray'
             r.members.update({k: v for k, v in data.members.items() if k in ('items', 'rows', 'dims')})
-            r.members['coords'] = dict(kwargs.get('coords') or {})
+            co = kwargs.get('coords') or {}
+            if isinstance(co, BoundModel) and isinstance(co.recv, SVar):
+                co = co.recv.members.get('coords') or {}
+            r.members['coords'] = dict(co)
             return r
         return super().sc_DataArray(interp, args, kwargs, node)
 
@@ -453,7 +623,13 @@ class WitnessModel(Model):
         if mod in ('scipp', 'scipp.spatial') and name in self.LIFTED and any(self._is_arr(a) for a in list(args) + list(kwargs.values()) if isinstance(a, SVar)):
             arrs = [a for a in list(args) + list(kwargs.values()) if isinstance(a, SVar) and self._is_arr(a)]
             if any(rows_of(a) is not None for a in arrs):
-                raise AnalysisError(f'{path} on a 2-d array of symbolic scalars at {interp.where(node)}')
+                m0 = next(a for a in arrs if rows_of(a) is not None)
+                rows = []
+                for i in range(len(rows_of(m0))):
+                    pa = [rows_of(a)[i] if isinstance(a, SVar) and rows_of(a) is not None else a for a in args]
+                    ka = {k: (rows_of(a)[i] if isinstance(a, SVar) and rows_of(a) is not None else a) for k, a in kwargs.items()}
+                    rows.append(self.call_ext(interp, path, pa, ka, node))
+                return self.matrix(interp, rows, m0.members['dims'][0])
             n = len(items_of(arrs[0]))
             if any(len(items_of(a)) != n for a in arrs):
                 raise RaiseSignal('DimensionError', node, interp.where(node), ('length mismatch',))
@@ -463,6 +639,32 @@ class WitnessModel(Model):
                 ka = {k: (items_of(a)[i] if isinstance(a, SVar) and self._is_arr(a) else a) for k, a in kwargs.items()}
                 out.append(super().call_ext(interp, path, pa, ka, node))
             return self.array(interp, out, arrs[0].members['dims'][0])
+        if mod in ('scipp',) and name in ('sum', 'min', 'max', 'mean', 'any', 'all') and args and isinstance(args[0], SVar) and self._is_arr(args[0]) \
+                and name not in ('any', 'all'):
+            return self.call_method(interp, args[0], name, list(args[1:]), kwargs, node)
+        if path in ('numpy.argmin', 'numpy.argmax') and args and isinstance(args[0], SVar) and items_of(args[0]) is not None:
+            vals = [self.value(x) for x in items_of(args[0])]
+            if any(v is None for v in vals) or not vals:
+                raise AnalysisError(f'{path} without witness values at {interp.where(node)}')
+            return vals.index(min(vals) if path.endswith('argmin') else max(vals))
+        if path == 'numpy.nextafter' and len(args) == 2 and isinstance(args[0], SVar):
+            x, to = args
+            up = isinstance(to, float) and to == float('inf')
+
+            def nxt(i):
+                t = Rat.fn('nextafter_up' if up else 'nextafter_other', i.term) if isinstance(i.term, Rat) else None
+                r = self.new(interp, t, i.unit, i.dtype, i.taint, i.why)
+                r.kind = 'raw'
+                r.members['dims'] = []
+                return r
+            if self._is_arr(x):
+                r = self._map(interp, x, nxt)
+                r.kind = 'raw'
+                return r
+            return nxt(x)
+        if path == 'itertools.product' and all(isinstance(a, list | tuple) for a in args) and not kwargs:
+            import itertools
+            return list(itertools.product(*args))
         if path == 'operator.attrgetter' and len(args) == 1 and isinstance(args[0], str):
             return _AttrGetter(args[0])
         if path == 'operator.itemgetter' and len(args) == 1:
